@@ -2,5 +2,7 @@ SPECIFICATION Spec
 CONSTANT MaxN = 6
 CONSTANT MinN = 4
 CONSTANT Places = {"Cpu", "Npu", "MemN", "MemC"}
+CONSTANT MultiOut = TRUE
+CONSTANT SinkSees = "all"
 CONSTANT AllowExtra = TRUE
 CHECK_DEADLOCK FALSE
